@@ -37,6 +37,14 @@ def run(ctx):
             al = lzma.compress(data, format=lzma.FORMAT_ALONE, filters=[{'id': lzma.FILTER_LZMA1, 'dict_size': 4096}])
             inputs.append((al, 'lzma')); inputs.append((xzgen.mutate(rng, al)[0], 'lzma')); inputs.append((al + rng.choice([b'\0', b'trailing garbage', al]), 'lzma'))
             lz = lz_member(rng, data); inputs.append((lz, 'lz')); inputs.append((lz + lz_member(rng, data[:50]) + b'trailing', 'lz'))
+        # multi-Block files as the threaded encoder writes them (sizes in the Block Headers: the threaded decoder really runs
+        # Blocks in parallel), whole, cut inside a later Block, damaged in an early and in a late Block
+        for _ in range(3 if ctx.quick() else 40):
+            f, e, bounds = xzgen.gen_mt_xz(rng, rng.choice([3, 4, 6]), bsize=rng.choice([(300, 2500), (20000, 50000)]))
+            inputs.append((f, 'xz'))
+            a_, b_ = rng.choice(bounds[1:]); inputs.append((f[:rng.randrange(a_ + 14, b_)], 'xz'))
+            for (a_, b_) in (bounds[0], bounds[-1]):
+                g = bytearray(f); g[rng.randrange(a_ + 14, b_ - 6)] ^= 1 << rng.randrange(8); inputs.append((bytes(g), 'xz'))
         # valid files whose integrity check type liblzma cannot verify (a warning, exit status 2, for xz)
         for cid in ((2, 7) if ctx.quick() else (2, 3, 5, 6, 7, 8, 9, 11, 12, 13, 14, 15)):
             inputs.append((xzgen.stream([(xzgen.gen_data(rng, rng.randrange(1, 400)), [{'id': 'lzma2', 'dict_size': 4096}], {})], cid, rng), 'xz'))
@@ -71,8 +79,12 @@ def run(ctx):
             runs = [('xz -dc', [xz, '-dc', p]), ('xz -dc -T4', [xz, '-dc', '-T4', p]), ('xz -t', [xz, '-t', p]), ('xz -d', [xz, '-dk', p])]
             if fmt == 'xz': runs.append(('xzdec', [xzdec, p]))
             if fmt == 'lzma': runs.append(('lzmadec', [lzmadec, p]))
+            # standard input to standard output without -c (xz then writes to stdout on its own), single- and multi-threaded
+            runs += [('xz -d <stdin', [xz, '-d']), ('xz -d -T4 <stdin', [xz, '-d', '-T4']), ('xz -dc -T2 <stdin', [xz, '-dc', '-T2'])]
             for name, cmd in runs:
-                r = sh(cmd); n_eval += 1
+                if name.endswith('<stdin'): r = subprocess.run(cmd, input=blob, capture_output=True, timeout=120)
+                else: r = sh(cmd)
+                n_eval += 1
                 if name == 'xz -dc': single[i] = (r.stdout, r.returncode, p, fmt)
                 if name == 'lzmadec':
                     a_ = alone.get(i)
@@ -100,7 +112,10 @@ def run(ctx):
                     viol.append(dict(why='%s exit status %d but the library decode returns %d' % (name, r.returncode, ret), file=blob.hex()))
                 elif ok_lib and r.stdout != out:
                     viol.append(dict(why='%s wrote %d bytes, the library decodes %d bytes (or different content)' % (name, len(r.stdout), len(out)), file=blob.hex()))
-                elif not ok_lib and name != 'xz -dc -T4' and not (out.startswith(r.stdout) or r.stdout.startswith(out)):
+                elif not ok_lib and r.stdout != out and name != 'lzmadec':
+                    # everything decodable before the error, nothing after it - with any number of threads
+                    viol.append(dict(why='%s wrote %d bytes before reporting the error, the library decodes %d bytes before it%s' % (name, len(r.stdout), len(out), '' if out.startswith(r.stdout) or r.stdout.startswith(out) else ' (and the contents differ)'), file=blob.hex()))
+                elif not ok_lib and name == 'lzmadec' and not (out.startswith(r.stdout) or r.stdout.startswith(out)):
                     viol.append(dict(why='%s output before the error is not what the library decoded' % name, file=blob.hex()))
         # ---------- several files in one run: every file is judged as if it were alone (no state may leak from one file to the next)
         keys = sorted(single)
